@@ -294,6 +294,59 @@ ASSUMPTIONS = [
 ]
 
 
+CASE_INPUT = (b"commit 1111111111111111111111111111111111111111\nAuthor: A\n\n    msg\n\n"
+              b"diff --git a/f.rs b/f.rs\n--- a/f.rs\n+++ b/f.rs\n@@ -1,2 +1,2 @@ fn f()\n a\n-b\n+c\n"
+              b"diff --cc g.txt\nindex 1,2..3\n--- a/g.txt\n+++ b/g.txt\n@@@ -1,3 -1,3 +1,5 @@@\n  a\n"
+              b"++<<<<<<< HEAD\n +o\n++=======\n+ t\n++>>>>>>> br\n")
+CASE_OPTS = ["commit-decoration-style", "file-decoration-style", "hunk-header-decoration-style",
+             "merge-conflict-ours-diff-header-decoration-style", "merge-conflict-theirs-diff-header-decoration-style",
+             "commit-style", "file-style", "hunk-header-style", "merge-conflict-ours-diff-header-style",
+             "plus-style", "minus-style", "zero-style", "line-numbers-plus-style", "hunk-header-file-style"]
+# only words the statement lists (colours, the ten attributes incl. omit / raw): delta's own words (box, ol, file,
+# line-number, omit-code-fragment, none) are not claimed to be case-insensitive
+CASE_VALUES = ["blue ul", "ul", "blue bold ul", "red blue italic", "omit", "raw", "syntax bold", "bright-blue normal",
+               "reverse dim strike blink hidden", "auto auto", "purple ul bold", "#ff0000 ul"]
+
+
+def run_case(task):
+    """letter-case law: a style string means the same in upper, title and mixed case"""
+    opts_, deadline = task
+    drv = explore.get_driver()
+    viols = {}
+    n = 0
+    distinct = set()
+
+    def render(opt, val):
+        o = base(opt, val, False)
+        o["line-numbers"] = True
+        try:
+            cid = drv.mkconfig(build_args(o))
+        except explore.Rejected as e:
+            return ("rejected", str(e)[:60])
+        r = drv.render1(cid, CASE_INPUT)
+        drv.drop(cid)
+        return ("panic", r.panic) if r.panic else ("out", r.out)
+
+    for opt in opts_:
+        for val in CASE_VALUES:
+            ref = render(opt, val)
+            distinct.add(explore.h64(repr(ref)))
+            for name, f in (("upper", str.upper), ("title", str.title),
+                            ("alternating", lambda x: "".join(c.upper() if i % 2 else c for i, c in enumerate(x)))):
+                n += 1
+                got = render(opt, f(val))
+                if got[0] != ref[0] or (got[0] == "out" and got[1] != ref[1]):
+                    klass = "letter-case:" + opt
+                    if klass not in viols:
+                        v = Violation(klass, "--%s %r and %r (%s case) are not treated alike: %s vs %s"
+                                      % (opt, val, f(val), name, ref[0], got[0]), CASE_INPUT.split(b"\n")[:-1],
+                                      None, ref[1] if isinstance(ref[1], bytes) else None,
+                                      got[1] if isinstance(got[1], bytes) else None)
+                        v.args = build_args(base(opt, f(val), False))
+                        viols[klass] = v
+    return {"n": n, "distinct": len(distinct), "violations": list(viols.values())}
+
+
 def main(tier):
     t0 = time.time()
     build.ensure_built()
@@ -325,9 +378,12 @@ def main(tier):
             if opt not in ("plus-style", "zero-style", "file-style"):
                 tasks.append((opt, tc, core40, deadline))
     res = explore.pmap(run_task, tasks)
+    res_case = explore.pmap(run_case, [([o], deadline) for o in CASE_OPTS])
     n = sum(r["n"] for r in res)
     viols = []
     for r in res:
+        viols.extend(r["violations"])
+    for r in res_case:
         viols.extend(r["violations"])
     best = {}
     for v in viols:
@@ -342,6 +398,8 @@ def main(tier):
                 "per task, summed",
         "samples": [r["sample"] for r in res if r["sample"]][:4],
         "style_strings": len(items), "sweep_strings": len(sweeps), "options": sorted(PROBES),
+        "letter_case_law": {"options": len(CASE_OPTS), "values": len(CASE_VALUES), "comparisons": sum(r["n"] for r in res_case),
+                            "distinct_reference_outcomes": sum(r["distinct"] for r in res_case)},
         "caps_hit": caps, "exhaustive": not caps,
     }
     return report.finish(PROP, tier, "exploration", cov, viols, ASSUMPTIONS, t0, runner.seed())
